@@ -268,7 +268,7 @@ prop('C01',
 prop('C11',
      [('R00.dyn', RG.rule_no_dynamic), ('R11.d', ROm.rule_closed_forms), ('R11.d', ROm.rule_ring),
       ('R11.d', ROm.rule_trivial), ('R11.a', ROm.rule_aliases), ('R11.m', ROm.rule_koyama_multiplicity),
-      ('R11.k', ROm.rule_koyama_kernel), ('R11.v', ROm.rule_koyama_rejection), ('R11.e', ROm.rule_nfjc),
+      ('R11.k', ROm.rule_koyama_kernel), ('R11.g', ROm.rule_koyama_moments), ('R11.b', ROm.rule_koyama_bending), ('R11.v', ROm.rule_koyama_rejection), ('R11.e', ROm.rule_nfjc),
       ('R11.h', ROm.rule_history), ('R11.i', ROm.rule_instances), ('R11.l', ROm.rule_library_names)],
      'Static analysis of pyPRISM/omega: Gaussian and FreelyJointedChain terms are extracted with a symbolic chain length '
      '(E^(N+1) as a symbolic power) and compared with the closed form, whose equality with the defining pair sum '
